@@ -173,6 +173,18 @@ int32_t matrixSslNewClientSession(ssl_t **ssl, const sslKeys_t *keys,
             sid->idLen = 0;
             Memset(sid->masterSecret, 0, SSL_HS_MASTER_SIZE);
             sid->cipherId = 0;
+# ifdef USE_STATELESS_SESSION_TICKETS
+            /* The ticket belongs to the master secret that has just been
+               dropped: offering it would let the handshake be abbreviated
+               on an all-zero master secret. */
+            if (sid->sessionTicket != NULL)
+            {
+                psFree(sid->sessionTicket, sid->pool);
+                sid->sessionTicket = NULL;
+            }
+            sid->sessionTicketLen = 0;
+            sid->sessionTicketState = SESS_TICKET_STATE_INIT;
+# endif
         }
     }
 
